@@ -642,6 +642,9 @@ package util
 // guard:<field>:<read|write>@<site>, holds:<callee>@<site>, unlock / lock-held-at-return).
 // (db, ChangeCollector and cache are assigned once at construction and synchronise themselves.)
 //@ guarded MerklePatriciaTrie.root by mutex
+// the change collector is read (and its content snapshotted) only under the trie mutex: that is what
+// makes a whole Insert / Delete atomic for GetChanges, SaveChanges and merges
+//@ guarded MerklePatriciaTrie.ChangeCollector by mutex
 //@ guarded MerklePatriciaTrie.deleteNodes by mutex
 //@ guarded MerklePatriciaTrie.missingNodeKeys by missingNodeKeysMu
 
@@ -696,6 +699,9 @@ package util
 //@      | && DBPut == old(DBPut) && DBDel == old(DBDel)
 //@      | && heapof(OriginTracker.Origin) == old(heapof(OriginTracker.Origin))                                   #stale-merge-changes-nothing
 //@   ensures str(old(mpt.root)) == str(newRoot) ==> err == nil && mpt.root == old(mpt.root) && DBPut == old(DBPut) && DBDel == old(DBDel)      #merging-the-same-root-changes-nothing
+//@ func (*MerklePatriciaTrie).SaveChanges(mpt, ctx, ndb, includeDeletes) returns (err)
+//@   props C16
+//@   mode wrap
 //@ func (*MerklePatriciaTrie).MergeDB(mpt, ndb, root, deadNodes) returns (err)
 //@   props C16
 //@   mode wrap
